@@ -323,7 +323,7 @@ pub struct DumpSpec {
 impl Default for DumpSpec {
     fn default() -> Self {
         DumpSpec {
-            prop_keys: vec!["k".into(), long_key()],
+            prop_keys: vec!["k".into(), long_key(), "big".into()],
             rel_types: vec!["R".into(), "S".into()],
             index_probes: Vec::new(),
             max_iid_probe: 8,
